@@ -263,6 +263,11 @@ func runGenerated(c *fw.Ctx, bc *builtCorpus, prop string) {
 			c.Model(str(rec["stream"]), str(rec["req"]), str(rec["impl"]))
 		case "sample":
 			c.Sample(rec["sample"])
+		case "extra":
+			n, _ := rec["n"].(float64)
+			k := "runner_" + str(rec["key"])
+			prev, _ := c.Extra[k].(int)
+			c.Extra[k] = prev + int(n)
 		case "note":
 			c.Notes = append(c.Notes, str(rec["note"]))
 		}
